@@ -149,6 +149,11 @@ def run(ctx):
     else:
         core.run_sharded(ctx, __name__, 'shard', getattr(ctx, 'shards_override', None) or 16, (12000, 1))
         ctx.exhaustive['small-grammar-boolean-part'] = True
+        with ctx.timed('atheris'):
+            from hplverif import fuzz
+
+            fuzz.tape_campaigns(ctx, 'C09', 8, 60000)
+
 
 
 def extra_evidence(ctx):
